@@ -535,6 +535,21 @@ func valueLeaves(v ssa.Value, depth int) []ssa.Value {
 		if out := fieldLeavesOfValue(x.X, x.Field, x.Type(), x.Parent(), depth); len(out) > 0 {
 			return out
 		}
+	case *ssa.Extract:
+		// one of several results of a helper of the module: what the helper returns there
+		if call, ok := x.Tuple.(*ssa.Call); ok {
+			if h := an.StaticCallee(call); h != nil && an.InModule(h) && h.Blocks != nil {
+				var out []ssa.Value
+				for _, ret := range an.Returns(h) {
+					if x.Index < len(ret.Results) {
+						out = append(out, valueLeaves(returnedValue(ret, x.Index), depth+1)...)
+					}
+				}
+				if len(out) > 0 {
+					return out
+				}
+			}
+		}
 	}
 	return []ssa.Value{v}
 }
